@@ -161,6 +161,10 @@ def handle (op : String) (args : List String) (impl : Impl) : Option Ans :=
       | .ok ["d", x, y] => (match parseDur? x, parseDur? y with
           | some x, some y => verdict [("same_as_generic_call", sval x == sval y)]
           | _, _ => "FAIL:decode")
+      | .ok ["t", x, y, z] =>
+        -- texts: the scale-fixed format of an epoch is the text of its re-expression in that scale, which is also
+        -- what Display prints for the re-expressed epoch
+        verdict [("same_as_generic_call", x == y), ("same_as_display_of_the_view", x == z)]
       | .ok ["f", x, y] => (match parseF? x, parseF? y with
           | some x, some y =>
             let bx := x.toBits.toNat; let by' := y.toBits.toNat
